@@ -4,7 +4,7 @@ id="$1"; n="$2"; shift 2
 wt=/tmp/wt-$id
 export GOFLAGS=-mod=mod GOPROXY=off
 cd $wt || exit 9
-git checkout -q -- . ; 
+git checkout -q -- . ; git checkout -q --detach $(git -C /repo rev-parse HEAD) || exit 9
 cpline=$(grep -E "^\s*cp SEED/demo$n/" SEED/demo$n/RUN.txt | head -1 | sed 's/^\s*//')
 runline=$(grep -E "^\s*(GOFLAGS=[^ ]+ )?(GOPROXY=[^ ]+ )?go test" SEED/demo$n/RUN.txt | head -1 | sed "s/^\s*//")
 dest=$(echo "$cpline" | awk '{print $3}')
